@@ -56,6 +56,10 @@ CHECKS = {
  "C05": dict(technique="CrossHair symbolic execution of to_json/from_json of Node, Fragment, Slice, Mark and the eight step classes (attribute values, open depths and all step integer fields symbolic); real json.dumps/loads on concrete self-test inputs",
              text="With unbounded symbolic ints, a symbolic short string, None and one level of list/dict nesting as attribute values, symbolic open depths and every integer field of every step symbolic, decoding the JSON form gives an equal object that re-serialises identically, the JSON is plain data that does not alias live attribute values, decoded steps have the same effect and map on catalogue documents (positions bounded), and the registry holds exactly the eight published names; a fixed set of concrete inputs additionally passes through the real json encoder/decoder.",
              ref="4/C05"),
+ "C19": dict(technique="CrossHair symbolic execution of the pure-Python half only: DOMSerializer (to_dom.py) with symbolic characters/attribute values/mark bits against a reference serialiser, and ParseContext.matches_context (from_dom.py) with a symbolic ancestor stack under the step budget; the lxml-bound import half is not applicable",
+             text="RESTRICTED CLAIM. Export: for documents of the list schema whose text and attribute strings are built from symbolic characters of {a < & \" ' > space}, symbolic heading level / list start and symbolic mark bits, serialisation never raises and the output equals a reference serialiser (escaping of & < > quotes in text and attribute values, marks re-opened in order). Context expressions: for 12 expressions and every ancestor stack up to depth 3 (thorough 4) matches_context terminates (step budget) and agrees with an independent matcher of the documented grammar. NOT claimed: totality/validity of parsing, list normalisation, whitespace handling, pending marks, export-then-import identity (see not_applicable).",
+             ref="5/C19",
+             note="Only the pure-Python export and context-matching code is symbolically reachable; everything operating on lxml elements realises its input at the C boundary and is declared not applicable rather than checked by another technique."),
 }
 CHECKS_END = None
 
